@@ -36,8 +36,9 @@ using namespace FEAT;
 
 namespace
 {
-  struct ScatterRec { int task; Index cell; sim::VClock enter, leave; int job; };
-  struct CombineRec { int task; sim::VClock enter, leave; int job; };
+  // t_in/t_out: position of the entry/exit in the global order of recorder events of the run (t_out = 0: never left)
+  struct ScatterRec { int task; Index cell; sim::VClock enter, leave; int job; uint64_t t_in = 0, t_out = 0; };
+  struct CombineRec { int task; sim::VClock enter, leave; int job; uint64_t t_in = 0, t_out = 0; };
 
   struct Recorder
   {
@@ -46,6 +47,7 @@ namespace
     std::map<std::pair<int, Index>, int> prepared, scattered; // (job, cell) -> count
     std::set<int> tasks_used;
     int job = 0;
+    uint64_t seq = 0;
     int open_scatter[sim::MAX_TASKS];
     Recorder() { for(int& x : open_scatter) x = -1; }
 
@@ -55,7 +57,7 @@ namespace
     {
       sim::NoRace nr;
       sim::vc_tick();
-      ScatterRec r; r.task = sim::self(); r.cell = c; r.enter = sim::vclock(); r.job = job;
+      ScatterRec r; r.task = sim::self(); r.cell = c; r.enter = sim::vclock(); r.job = job; r.t_in = ++seq;
       open_scatter[sim::self()] = int(scatters.size());
       scatters.push_back(r);
       ++scattered[{job, c}];
@@ -66,13 +68,14 @@ namespace
       sim::NoRace nr;
       sim::vc_tick();
       scatters[size_t(open_scatter[sim::self()])].leave = sim::vclock();
+      scatters[size_t(open_scatter[sim::self()])].t_out = ++seq;
       sim::ev("scatter_leave", c);
     }
     void combine_enter()
     {
       sim::NoRace nr;
       sim::vc_tick();
-      CombineRec r; r.task = sim::self(); r.enter = sim::vclock(); r.job = job;
+      CombineRec r; r.task = sim::self(); r.enter = sim::vclock(); r.job = job; r.t_in = ++seq;
       open_scatter[sim::self()] = int(combines.size());
       combines.push_back(r);
       sim::ev("combine_enter");
@@ -82,6 +85,7 @@ namespace
       sim::NoRace nr;
       sim::vc_tick();
       combines[size_t(open_scatter[sim::self()])].leave = sim::vclock();
+      combines[size_t(open_scatter[sim::self()])].t_out = ++seq;
       sim::ev("combine_leave");
     }
   };
@@ -89,6 +93,31 @@ namespace
 
   // a happens-before b  (a's leave precedes b's enter)
   inline bool hb(int ta, const sim::VClock& a_leave, const sim::VClock& b_enter) { return a_leave[size_t(ta)] <= b_enter[size_t(ta)]; }
+
+  // Two critical sections of different tasks are in conflict ...
+  //  * race flavour: if neither happens before the other. The vector clocks of that flavour know every synchronisation
+  //    the code can use (pthread primitives from the model, atomics and static guards from the compiler instrumentation),
+  //    so one run judges all interleavings with the same synchronisation order.
+  //  * other flavours: if they were observed to overlap in this run (one was entered while the other had not been left;
+  //    there is a scheduling point inside every section). The vector clocks of these flavours only know the pthread
+  //    primitives; code that orders its sections through atomics would be accused wrongly by a happens-before verdict
+  //    (it was: a fence with a lock-free acquire fast path, benign round 3), an observed overlap is a fact under any
+  //    synchronisation.
+  template<typename Rec_>
+  inline bool in_conflict(const Rec_& a, const Rec_& b)
+  {
+#ifdef SIM_FLAVOUR_RACE
+    return !hb(a.task, a.leave, b.enter) && !hb(b.task, b.leave, a.enter);
+#else
+    const uint64_t a_out = a.t_out ? a.t_out : ~uint64_t(0), b_out = b.t_out ? b.t_out : ~uint64_t(0);
+    return a.t_in < b_out && b.t_in < a_out;
+#endif
+  }
+#ifdef SIM_FLAVOUR_RACE
+  const char* const conflict_how = "are not ordered by happens-before";
+#else
+  const char* const conflict_how = "were executed at the same time";
+#endif
 
   // ---------------------------------------------------------------------------------------------
   // wrapper around a real job: Task derives from the real Job::Task (the assembler is duck-typed on it)
@@ -340,9 +369,9 @@ namespace
             const ScatterRec& a = REC->scatters[i]; const ScatterRec& b = REC->scatters[k];
             if(i == k || a.task == b.task || a.job != b.job) continue;
             ++vd.pairs_checked;
-            if(!hb(a.task, a.leave, b.enter) && !hb(b.task, b.leave, a.enter))
+            if(in_conflict(a, b))
               sim::fail("RACE", "scatter on vertex-adjacent cells " + std::to_string(a.cell) + " (task " + std::to_string(a.task) + ") and " +
-                std::to_string(b.cell) + " (task " + std::to_string(b.task) + ") are not ordered by happens-before");
+                std::to_string(b.cell) + " (task " + std::to_string(b.task) + ") " + conflict_how);
           }
         }
       }
@@ -352,8 +381,8 @@ namespace
         const CombineRec& a = REC->combines[i]; const CombineRec& b = REC->combines[k];
         if(a.task == b.task || a.job != b.job) continue;
         ++vd.pairs_checked;
-        if(!hb(a.task, a.leave, b.enter) && !hb(b.task, b.leave, a.enter))
-          sim::fail("RACE", "combine() of tasks " + std::to_string(a.task) + " and " + std::to_string(b.task) + " not ordered by happens-before");
+        if(in_conflict(a, b))
+          sim::fail("RACE", "combine() of tasks " + std::to_string(a.task) + " and " + std::to_string(b.task) + " " + conflict_how);
       }
     }
 
